@@ -151,6 +151,12 @@ func (c *Ctx) floatLit(dec string, t types.Type) string {
 		return n
 	}
 	c.uses["fp"] = true
+	if r.Sign() == 0 {
+		if intBits32(t) {
+			return "(_ +zero 8 24)"
+		}
+		return "(_ +zero 11 53)"
+	}
 	if intBits32(t) {
 		return "((_ to_fp 8 24) RNE " + real + ")"
 	}
